@@ -7,7 +7,7 @@ def _set(*xs):
 
 
 _FINS = _set("stop", "length", "tool_calls", "none")
-_USAGES = _set("none", "fin", "own", "nochoices")
+_USAGES = _set("none", "fin", "own", "nochoices", "running")
 _CHUNKS = _set("all", "event", "line", "byte", "n7", "n64", "n1000")
 _NOISES = _set("none", "comment", "crlf", "azure", "nodone", "afterdone")
 _CLASSES = _set("ascii", "uni", "empty", "big", "ws")
